@@ -66,6 +66,7 @@ ASSUMPTIONS = [
     "the generator runs natively on the concrete JSON (its choice space is what the solver explores); scratch directories are created with tempfile and removed after each run",
     "behavioural identity is decided by the deep fingerprint of the built machine plus 5 traces (for configs without hostile names); the CLI's own verifier is NOT trusted (it compares guards by name and invokes by src)",
     "the 104 Stately exports are outside this check (the repository's own tests cover them with the weaker verifier)",
+    "black is called in-process (black.format_str, same version, same line length) instead of through `python -m black -`; isort as in the real pipeline",
 ]
 WALL_BUDGET = {"quick": 900.0, "thorough": 3300.0}
 TEMPLATES = ["pythonic-class", "pythonic-builder", "pythonic-functional", "class-json", "function-json"]
@@ -96,12 +97,49 @@ def _note(m: str) -> None:
     EXPLAIN.append(m)
 
 
+class _InProcessBlack:
+    """Stands in for the name ``subprocess`` inside cli/postprocess.py: ``python -m black --quiet --line-length=N -`` is
+    answered by the same black, imported in-process (16 workers x 6 interpreter start-ups per path saturate the machine
+    otherwise). Anything else goes to the real subprocess module."""
+
+    def __init__(self) -> None:
+        import subprocess as _sp
+
+        self._sp = _sp
+        self.SubprocessError = _sp.SubprocessError
+        self.CompletedProcess = _sp.CompletedProcess
+
+    def run(self, argv: Any, input: Any = None, **kw: Any) -> Any:  # noqa: A002
+        if isinstance(argv, list) and argv[1:3] == ["-m", "black"] and argv[-1] == "-":
+            try:
+                import black
+            except ImportError:
+                return self._sp.CompletedProcess(argv, 1, stdout="", stderr="No module named black")
+            ll = 88
+            for a in argv:
+                if isinstance(a, str) and a.startswith("--line-length="):
+                    ll = int(a.split("=", 1)[1])
+            try:
+                out = black.format_str(input, mode=black.Mode(line_length=ll))
+                return self._sp.CompletedProcess(argv, 0, stdout=out, stderr="")
+            except Exception as e:  # noqa: BLE001 - black's InvalidInput etc. = non-zero exit of the CLI
+                return self._sp.CompletedProcess(argv, 123, stdout="", stderr=str(e))
+        return self._sp.run(argv, input=input, **kw)
+
+    def __getattr__(self, name: str) -> Any:
+        return getattr(self._sp, name)
+
+
 def set_params(p: Dict[str, Any]) -> None:
     global P
     P = p
     env.install()
     vthread.install()
     c19.P = {}
+    import xstate_statemachine.cli.postprocess as pp
+
+    if not isinstance(pp.subprocess, _InProcessBlack):
+        pp.subprocess = _InProcessBlack()  # type: ignore[attr-defined]
 
 
 def gen(cfg: Dict[str, Any], template: str, fc: int, am: Optional[str], extra: Tuple[str, ...] = (), keep: Optional[str] = None) -> Tuple[int, Dict[str, str], str, str]:
